@@ -2,11 +2,12 @@ import PPModel.Base.Sexp
 import PPModel.Mod.Entry
 import PPModel.Mod.LeftRec
 import PPModel.Mod.PlainFrag
+import PPModel.Mod.TermCheck
 /-
   Driver handlers for the shared parse model.
 
   line:  pp (<mode>) <entry> <fuel> <root> "<default white>" "<input>" <keepTabs> (<opts>...) (<node>*)
-    entry ∈ parse | parseAll | scan | search | transform | split
+    entry ∈ parse | parseAll | scan | search | transform | split | plain | termcheck
     node  = (<kind> <skipWs> "<white>" <callPre> <mayIdx> (<ignore ids>) (<acts>) <callDuringTry> <nameLen> <hasName>)
 -/
 namespace PP.Driver.PD
@@ -150,6 +151,9 @@ def parseHandle : List Sexp → Option Sexp
       let p ← mkP mode g s fuel
       match entry, opts with
       | "plain", [] => pure (ofBool (plainTable g))
+      -- C06: do the executable hypotheses of the termination theorem hold of this table (depth / analysis bound = its size)?
+      | "termcheck", [] => pure (.list [ofBool (depthOk g g.length root), ofBool (advOk g g.length),
+                                        ofBool (recTableOk g g.length g.length), ofNat g.length])
       | "parse", [] => pure (outSexpNoEnd (parseString p g root dw s false))
       | "parseNames", [] => pure (outSexpNames (parseString p g root dw s false))
       | "parseAll", [] => pure (outSexpNoEnd (parseString p g root dw s true))
